@@ -147,7 +147,65 @@ func runNeg(c *NegCase) *sim.Outcome {
 		}
 		return true
 	}
-	switch c.Form % 7 {
+	switch c.Form % 8 {
+	case 7:
+		// a message of a forbidden version arrives while an exchange is under way or a session exists
+		v := best(allowedSet(c.PolA), c.PolB)
+		u := 5 - v
+		if v == 0 || allowedSet(c.PolB)[u] || c.PolB&sim.PolRequire != 0 || c.PolA&sim.PolRequire != 0 {
+			o.Discard = true
+			return o
+		}
+		w.Query(0)
+		for k := 0; k < c.Pos%6 && w.Pending() > 0; k++ {
+			d := k % 2
+			if len(w.Q[d]) == 0 {
+				d = 1 - d
+			}
+			w.Deliver(d, 0)
+		}
+		rr := sim.NewRand(79)
+		rnd := func(n int) []byte { x := make([]byte, n); rr.Read(x); return append([]byte{}, x...) }
+		var in []byte
+		what := ""
+		if c.V%2 == 0 {
+			in, what = ref.NewParty(uint16(u), refKey(1), rnd).StartAKE(), fmt.Sprintf("a genuine version %d D-H Commit", u)
+		} else {
+			// the layout of the version in use, labelled with the forbidden one
+			raw, _ := ref.Dearmor(ref.NewParty(uint16(v), refKey(1), rnd).StartAKE())
+			raw[1] = byte(u)
+			if v == 3 {
+				// addressed correctly, so that nothing but the version speaks against it
+				copy(raw[7:11], ref.PutU32(nil, b.C.GetOurInstanceTag()))
+			}
+			in, what = ref.Armor(raw), fmt.Sprintf("a D-H Commit in version %d layout labelled version %d", v, u)
+		}
+		encBefore := b.C.IsEncrypted()
+		before := len(w.Q[1])
+		cc := w.Receive(1, in)
+		if len(cc.Out) != 0 || cc.HasPl || b.C.IsEncrypted() != encBefore {
+			return o.Fail("C16/acted-on-forbidden-version", "%s was acted on after %d handshake messages (replies %d, encrypted before %v after %v) although policy %#x forbids that version", what, c.Pos%6, len(cc.Out), encBefore, b.C.IsEncrypted(), c.PolB)
+		}
+		w.Q[1] = w.Q[1][:before]
+		finish(v, "exchange disturbed by a forbidden-version message")
+		if o.Violation == "" {
+			// and the session carries text both ways
+			for d := 0; d < 2; d++ {
+				t := []byte(fmt.Sprintf("still here %d", d))
+				w.Send(d, t)
+				got := false
+				for _, c2 := range w.Flush(50) {
+					if c2.Who == 1-d && bytes.Equal(c2.Plain, t) {
+						got = true
+					}
+				}
+				if !got {
+					return o.Fail("C16/forbidden-version-left-a-trace", "after %s was refused, a text sent by %s did not arrive", what, w.P[d].Name)
+				}
+			}
+		}
+		o.Class(fmt.Sprintf("forbidden-version-at-step-%d-enc-%v", c.Pos%6, encBefore))
+		o.NonTrivial = true
 	case 6:
 		// end to end in plaintext state: what A's user sends is what B's user reads
 		if c.PolA&sim.PolRequire != 0 {
@@ -338,7 +396,7 @@ var craftedQueries = []string{"?OTRv2?", "?OTRv3?", "?OTRv23?", "?OTRv32?", "?OT
 func TestProp_C16_Negotiate(t *testing.T) {
 	defer sim.MarkCompleted("C16negotiate", false)
 	rapid.Check(t, func(rt *rapid.T) {
-		c := &NegCase{PolA: genPol(rt, "polA"), PolB: genPol(rt, "polB"), Form: rapid.IntRange(0, 6).Draw(rt, "form")}
+		c := &NegCase{PolA: genPol(rt, "polA"), PolB: genPol(rt, "polB"), Form: rapid.IntRange(0, 7).Draw(rt, "form")}
 		switch c.Form {
 		case 6:
 			// lengths around allocation size classes matter for buffer reuse
@@ -369,6 +427,14 @@ func TestProp_C16_Negotiate(t *testing.T) {
 			}
 		case 3:
 			c.V = rapid.SampledFrom([]int{2, 3}).Draw(rt, "v")
+		case 7:
+			// a version exists that A offers and B allows, and B forbids the other one
+			only := rapid.SampledFrom([]int{sim.PolV2, sim.PolV3}).Draw(rt, "only")
+			c.PolB = c.PolB&^3 | only
+			c.PolA = c.PolA&^sim.PolRequire | only | rapid.SampledFrom([]int{0, 3}).Draw(rt, "also")
+			c.PolB &^= sim.PolRequire
+			c.Pos = rapid.IntRange(0, 5).Draw(rt, "step")
+			c.V = rapid.IntRange(0, 1).Draw(rt, "label")
 		case 4:
 			if rapid.Bool().Draw(rt, "otrlike") {
 				c.Text = []byte(rapid.SampledFrom([]string{"?OTRv23?", "?OTR:AAMDabc.", "?OTR Error: x", "?OTR|1|2,1,1,x,", "hi" + string(ref.WSBase) + string(ref.WSV3), "?OTR"}).Draw(rt, "text"))
@@ -409,6 +475,21 @@ func TestProp_C16_Policies(t *testing.T) {
 			idx++
 			if idx%sn == si {
 				sim.Judge(t, "C16policies", &NegCase{PolB: pb, Form: 3, V: v})
+			}
+		}
+	}
+	// a forbidden-version D-H Commit (genuine or relabelled) at every step of a handshake and in the session
+	for _, only := range []int{sim.PolV2, sim.PolV3} {
+		for _, also := range []int{0, 3} {
+			for step := 0; step < 6; step++ {
+				for label := 0; label < 2; label++ {
+					for _, extra := range []int{0, sim.PolSendWS | sim.PolWSStart, sim.PolErrStart} {
+						idx++
+						if idx%sn == si {
+							sim.Judge(t, "C16policies", &NegCase{PolA: only | also | extra, PolB: only | extra, Form: 7, Pos: step, V: label})
+						}
+					}
+				}
 			}
 		}
 	}
